@@ -168,6 +168,9 @@ pub fn variants(n: u64) -> Vec<Spelled> {
         Spelled { text: cardinal(n, &Style { brazil_teens: true, catorze: true, ..d.clone() }), variant: "brazilian-teens-catorze" },
         Spelled { text: cardinal(n, &Style { brazil_scale: true, ..d.clone() }), variant: "bilhao-short-scale" },
         Spelled { text: cardinal(n, &Style { feminine: true, ..d.clone() }), variant: "feminine" },
+        // `bilião / biliões` as the other orthography of the short-scale word (the library documents both spellings as
+        // the same 10^9 word; in the long-scale reading the word only names numbers outside [0, 10^12))
+        Spelled { text: cardinal(n, &Style { brazil_scale: true, ..d.clone() }).replace("bilhão", "bilião").replace("bilhões", "biliões"), variant: "biliao-short-scale" },
     ]
 }
 
